@@ -167,7 +167,11 @@ func (n *vNet) NewNodeIP(name, ip, router string, opts ...Option) (*vNode, error
 	case "floodsub":
 		nd.ps, err = NewFloodSub(ctx, h, all...)
 	case "randomsub":
-		nd.ps, err = NewRandomSub(ctx, h, 10, all...)
+		size := n.rsSize
+		if size == 0 {
+			size = 10
+		}
+		nd.ps, err = NewRandomSub(ctx, h, size, all...)
 	default:
 		panic("router " + router)
 	}
